@@ -838,6 +838,32 @@ func rpNeutralCallbacks() StoreCallbacks {
 	}
 }
 
+// rpPool: behaviourally neutral reference counting WITH recycling: when an item's count returns to zero its key and
+// value bytes are overwritten (as a pooling allocator that reuses the buffers would do). A library that never
+// touches an item it has released, and never releases one it still uses, cannot notice.
+type rpPool struct{ cnt map[*Item]int }
+
+func (p *rpPool) drop(i *Item) {
+	p.cnt[i]--
+	if p.cnt[i] == 0 {
+		for k := range i.Key {
+			i.Key[k] = 0xEE
+		}
+		for k := range i.Val {
+			i.Val[k] = 0xEE
+		}
+	}
+}
+func (p *rpPool) callbacks() StoreCallbacks {
+	return StoreCallbacks{
+		ItemAlloc:  func(c *Collection, n uint32) *Item { i := &Item{Key: make([]byte, n)}; p.cnt[i] = 1; return i },
+		ItemAddRef: func(c *Collection, i *Item) { p.cnt[i]++ },
+		ItemDecRef: func(c *Collection, i *Item) { p.drop(i) },
+	}
+}
+
+var rpTracePool *rpPool // non-nil while a trace is played under the recycling callbacks
+
 // one fixed history, played with a given callback set; returns the trace of everything observable
 func rpTrace(t *testing.T, cb StoreCallbacks) string {
 	var tr bytes.Buffer
@@ -853,13 +879,20 @@ func rpTrace(t *testing.T, cb StoreCallbacks) string {
 		k := []byte(fmt.Sprintf("k%02d", r.Intn(8)))
 		switch r.Intn(8) {
 		case 0, 1, 2:
-			err := c.SetItem(&Item{Key: k, Val: bytes.Repeat([]byte{'v'}, r.Intn(5)), Priority: int32(r.Intn(9))})
+			it := &Item{Key: append([]byte(nil), k...), Val: bytes.Repeat([]byte{'v'}, r.Intn(5)), Priority: int32(r.Intn(9))}
+			if rpTracePool != nil {
+				rpTracePool.cnt[it] = 1 // the application's own reference, for the duration of the call
+			}
+			err := c.SetItem(it)
+			if rpTracePool != nil {
+				rpTracePool.drop(it)
+			}
 			fmt.Fprintf(&tr, "set %s %v;", k, err)
 		case 3:
 			was, err := c.Delete(k)
 			fmt.Fprintf(&tr, "del %s %v %v;", k, was, err)
 		case 4:
-			fmt.Fprintf(&tr, "setnil %v;", c.SetItem(&Item{Key: k, Val: nil, Priority: 1}) != nil)
+			fmt.Fprintf(&tr, "setnil %v;", c.SetItem(&Item{Key: append([]byte(nil), k...), Val: nil, Priority: 1}) != nil)
 		case 5:
 			fmt.Fprintf(&tr, "flush %v;", s.Flush())
 		case 6:
@@ -878,6 +911,16 @@ func rpTrace(t *testing.T, cb StoreCallbacks) string {
 		ni, nb, _ := c.GetTotals()
 		fmt.Fprintf(&tr, "get %q %v exist %v totals %d %d;", v, err, c.Exist(k), ni, nb)
 		c.VisitItemsAscend([]byte(""), true, func(i *Item) bool { fmt.Fprintf(&tr, "%s=%s/%d,", i.Key, i.Val, i.Priority); return true })
+		if step%5 == 0 {
+			n, err := c.Len()
+			fmt.Fprintf(&tr, "len %d %v;", n, err)
+			c.VisitItemsAscendBlockEx(false, nil, func(i *Item, d uint64) bool { fmt.Fprintf(&tr, "%s,", i.Key); return true })
+			mi, _ := c.MinItem(true)
+			if mi != nil {
+				fmt.Fprintf(&tr, "min %s=%s;", mi.Key, mi.Val)
+				s.ItemDecRef(c, mi)
+			}
+		}
 	}
 	fmt.Fprintf(&tr, "file %d bytes", len(f.b))
 	return tr.String()
@@ -893,8 +936,16 @@ func rpNeutral(t *testing.T) {
 		{BeforeItemWrite: full.BeforeItemWrite, AfterItemRead: full.AfterItemRead},
 		{ItemAlloc: full.ItemAlloc, ItemAddRef: full.ItemAddRef, ItemDecRef: full.ItemDecRef},
 	}
+	subsets = append(subsets, StoreCallbacks{}) // placeholder: #6 is the recycling reference counter, made below
 	for k, cb := range subsets {
-		if got := rpTrace(t, cb); got != base {
+		rpTracePool = nil
+		if k == len(subsets)-1 {
+			rpTracePool = &rpPool{cnt: map[*Item]int{}}
+			cb = rpTracePool.callbacks()
+		}
+		got := rpTrace(t, cb)
+		rpTracePool = nil
+		if got != base {
 			i := 0
 			for i < len(got) && i < len(base) && got[i] == base[i] {
 				i++
